@@ -188,3 +188,61 @@ func lemmaInflowConservation(f *inflow, n uint32, a, b uint16) (ok bool) {
 //@   ensures  (hastype(err, StreamError) && err.(StreamError).Code == ErrCodeFlowControl) ==> (int64(f.Length) > int64(old(sc.inflow.avail)) || int64(f.Length) > int64(old(sc.streams[f.StreamID].inflow.avail)))
 //@   ensures  int64(f.Length) > int64(old(sc.inflow.avail)) ==> ghost(kept) == 0 && err != nil
 //@   noframe
+
+// ---------------------------------------------------------------------------
+// transport.go: inbound DATA on the client and response-body refunds (C10, C11)
+
+// Trusted contracts (assumed, listed in the evidence).
+//
+//@ func (*pipe).Read(p, d) (n, err)
+//@   trusted
+//@   ensures 0 <= n && n <= len(d)
+//@   ensures err != nil ==> n == 0
+//@   modifies *p, elems(d)
+//@ func (*pipe).Len(p) (n)
+//@   trusted
+//@   ensures 0 <= n
+//@ func (*pipe).BreakWithError(p, err)
+//@   trusted
+//@   modifies *p
+//@ func (*clientStream).abortStream(cs, err)
+//@   trusted
+//@   requires cs != nil
+//@   modifies *cs
+//@   preserves cs.inflow, cs.cc, cs.ID
+//@ func (*Framer).WriteWindowUpdate(f, streamID, incr) (err)
+//@   trusted
+//@   modifies *f
+//@ func (*ClientConn).logf(cc, format, args)
+//@   trusted
+//@ func (*clientConnReadLoop).endStreamError(rl, cs, err)
+//@   trusted
+//@   modifies *cs
+//@   preserves cs.inflow
+//@ func (*clientConnReadLoop).endStream(rl, cs)
+//@   trusted
+//@   modifies *cs
+//@   preserves cs.inflow
+//
+// streamByID returns the registered stream, if any; registered streams are distinct objects that
+// belong to this connection and satisfy the window invariant (object invariant, assumed).
+//
+//@ func (*clientConnReadLoop).streamByID(rl, id, headerOrData) (cs)
+//@   trusted
+//@   requires rl != nil && rl.cc != nil
+//@   ensures cs != nil ==> old(allocated(cs)) && cs == rl.cc.streams[id] && inflowOK(cs.inflow.avail, cs.inflow.unsent)
+//@   modifies rl.cc.rstStreamPingsBlocked, rl.cc.readBeforeStreamID
+
+// transportResponseBody.Read: every byte removed from the stream's buffer is returned to the
+// connection-level window before Read returns (C10, "consumed by the application" and "stream
+// past Content-Length").
+//
+//@ func (transportResponseBody).Read(b, p) (n, err)
+//@   requires b.cs != nil && b.cs.cc != nil
+//@   requires inflowOK(b.cs.cc.inflow.avail, b.cs.cc.inflow.unsent) && inflowOK(b.cs.inflow.avail, b.cs.inflow.unsent)
+//@   requires int64(len(p)) + credit(b.cs.cc.inflow.avail, b.cs.cc.inflow.unsent) <= 1<<31-1
+//@   requires int64(len(p)) + credit(b.cs.inflow.avail, b.cs.inflow.unsent) <= 1<<31-1
+//@   ghost removed += $r0 after call Read
+//@   ensures  credit(b.cs.cc.inflow.avail, b.cs.cc.inflow.unsent) == old(credit(b.cs.cc.inflow.avail, b.cs.cc.inflow.unsent)) + ghost(removed)
+//@   ensures  inflowOK(b.cs.cc.inflow.avail, b.cs.cc.inflow.unsent)
+//@   noframe
